@@ -210,6 +210,33 @@ pub fn record(out_path: &str, count: u64) {
             }
         }
 
+        // (a') a YAML text in UTF-16/32 with one code unit that cannot be decoded (a lone surrogate, a unit beyond
+        // U+10FFFF): the failure is the re-encoder's, and its own message - which names the unit and where it is -
+        // is what the translation reports, for every target, from a slice and from a reader
+        if fmt == "yaml" && i % 8 == 1 {
+            for (enc, bad) in [("utf16le", &[0x00u8, 0xdc][..]), ("utf16be", &[0xd8, 0x3d]), ("utf32le", &[0x00, 0x00, 0x11, 0x00]), ("utf32be", &[0x00, 0x00, 0xd8, 0x00])] {
+                let mut b = val::reencode("k: \"ab", enc, true);
+                b.extend_from_slice(bad);
+                b.extend_from_slice(&val::reencode("\"\n", enc, false));
+                let b = Rc::new(b);
+                // the decoder's message, obtained from the re-encoder alone
+                let mut sink = vec![];
+                let want = match xt::verif::yaml_encoder_from_reader(std::io::BufReader::new(&b[..])) {
+                    Ok(mut r) => std::io::Read::read_to_end(&mut r, &mut sink).err().map(|e| e.to_string()).unwrap_or_default(),
+                    Err(e) => e.to_string(),
+                };
+                for reader in [false, true] {
+                    let msgs: Vec<String> = STREAM_TARGETS.iter().map(|to| run(&b, "yaml", to, reader, None).0.err().unwrap_or_default()).collect();
+                    let has = !want.is_empty() && msgs.iter().all(|m| m.contains(&want));
+                    rec(&mut sum, json!({"ev": "fail", "side": "input", "from": "yaml", "to": "streaming", "reader": reader, "res": if msgs.iter().all(|m| !m.is_empty()) { "err" } else { "ok" },
+                                         "same_across_targets": msgs.iter().all(|m| *m == msgs[0]) && has, "has_tf": msgs.iter().any(|m| m.contains("translation failed")),
+                                         "reason_nonempty": true, "has_writer_msg": false, "pos_ok": true, "bare_io": false,
+                                         "panic": msgs.iter().any(|m| m.starts_with("PANIC")), "msgs": msgs, "decoder_msg": want, "hex": hex(&b), "at": 0}),
+                        format!("enc/{enc}/{reader}/{i}"));
+                }
+            }
+        }
+
         // (c) the writer starts failing at every byte of the output
         for to in ["json", "yaml", "msgpack", "toml"] {
             for reader in [false, true] {
